@@ -152,10 +152,76 @@ def check(prog, run):
         if m.name != "advance":
             run.report(r, "%s:%s:writes-_last" % (PARSER, m.qualname), m.where(n), "%s writes self._last (only advance may)" % m.qualname)
     adv = parser.find_method("advance")
-    rets = [n for n in own_nodes(adv.node) if isinstance(n, ast.Return)]
-    pops = [n for n in own_nodes(adv.node) if isinstance(n, ast.Assign) and ast.unparse(n.targets[0]) == "self._last"]
-    if not (len(pops) == 1 and ast.unparse(pops[0].value) == "self._buffer.pop()" and all(ast.unparse(x.value) == "self._last" for x in rets)):
-        run.report(r, "%s:Parser.advance:shape" % PARSER, adv.where(), "advance does not set _last to the popped token and return it")
+    # path form: every returning execution of advance takes exactly one token out of the buffer, records that very token as
+    # self._last and returns it (directly, through a local, or by reading self._last back)
+    from .. import boolx
+    try:
+        _ev, aexits = boolx.walk_under(adv.node, lambda t: None)
+    except ValueError as e:
+        raise AnalysisError("C02.S1: Parser.advance: %s" % e)
+    n_ret = 0
+    for kind, st, env in aexits:
+        if kind != "return":
+            continue
+        n_ret += 1
+        stmts = env.get(boolx.STMTS, ())
+        penv = boolx.path_env(stmts, st)
+        pops_ = [c for c in env.get(boolx.CALLS, ()) if isinstance(c.func, ast.Attribute) and c.func.attr in ("pop", "popleft") and ast.unparse(c.func.value) == "self._buffer"]
+        stored = [" ".join(ast.unparse(boolx.path_subst(x.value, boolx.path_env(stmts, x))).split()) for x in stmts
+                  if isinstance(x, ast.Assign) and any(ast.unparse(t) == "self._last" for t in x.targets)]
+        ret = " ".join(ast.unparse(boolx.path_subst(st.value, penv)).split()) if st.value is not None else None
+        ok = len(pops_) == 1 and len(stored) == 1 and stored[0] == " ".join(ast.unparse(pops_[0]).split()) and ret in ("self._last", stored[0])
+        if not ok:
+            run.report(r, "%s:Parser.advance:shape" % PARSER, adv.where(st), "advance does not set _last to the popped token and return it "
+                       "(pops: %d, stored into _last: %s, returned: %s)" % (len(pops_), stored, ret))
+            break
+    shapes.require(n_ret >= 1, "C02.S1: Parser.advance has no returning execution")
+
+    # ---- S4 the span end: every token taken out of the look-ahead buffer is recorded as the last consumed token
+    r = run.rule("S4", "in every Parser method, a token leaves the look-ahead buffer (`self._buffer.pop()/popleft()/remove()/clear()`, "
+                       "`del self._buffer[...]`, re-binding `self._buffer` outside __init__) only in a statement that records it as "
+                       "`self._last` (directly or through a local assigned to `self._last` in the same block): `_loc` ends every span at "
+                       "`self._last.end`, so a token consumed behind its back leaves the span of the node - and of every node ending "
+                       "there - short", 1)
+    seen = set()
+    for name, m in parser.methods.items():
+        if id(m) in seen:
+            continue
+        seen.add(id(m))
+        for n in own_nodes(m.node):
+            what = None
+            if isinstance(n, ast.Call) and isinstance(n.func, ast.Attribute) and n.func.attr in ("pop", "popleft", "remove", "clear") \
+                    and ast.unparse(n.func.value) == "self._buffer":
+                what = n
+            elif isinstance(n, ast.Delete) and any("self._buffer" in ast.unparse(t) for t in n.targets):
+                what = n
+            elif isinstance(n, (ast.Assign, ast.AugAssign)) and m.name != "__init__" and any(
+                    ast.unparse(t) == "self._buffer" for t in (n.targets if isinstance(n, ast.Assign) else [n.target])):
+                what = n
+            if what is None:
+                continue
+            st = what
+            while not isinstance(st, ast.stmt):
+                st = st._parent
+            ok = False
+            if isinstance(what, ast.Call) and what.func.attr in ("pop", "popleft") and isinstance(st, ast.Assign) and st.value is what:
+                if any(ast.unparse(t) == "self._last" for t in st.targets):
+                    ok = True
+                elif len(st.targets) == 1 and isinstance(st.targets[0], ast.Name):
+                    blk = next((b for b in (getattr(st._parent, f, None) for f in ("body", "orelse", "finalbody")) if isinstance(b, list) and st in b), [])
+                    for later in blk[blk.index(st) + 1:] if blk else []:
+                        if isinstance(later, ast.Assign) and any(ast.unparse(t) == "self._last" for t in later.targets) \
+                                and isinstance(later.value, ast.Name) and later.value.id == st.targets[0].id:
+                            ok = True
+                            break
+                        if isinstance(later, (ast.Return, ast.Raise, ast.If, ast.For, ast.While, ast.Try)):
+                            break
+            r.instance("%s: `%s` recorded as _last: %s" % (m.qualname, norm_stmt(st), ok))
+            if not ok:
+                run.report(r, "%s:%s:unrecorded-consumption" % (PARSER, m.qualname), m.where(st),
+                           "`%s` takes a token out of the look-ahead buffer without recording it as `self._last`: the span of the node "
+                           "being built (and of every enclosing node that ends with this token) stops at the previous token"
+                           % norm_stmt(st))
 
     # ---- S3 no reordering
     r = run.rule("S3", "no sorted/reversed/set/dict.fromkeys/negative-step slice is applied to anything inside Parser methods "
